@@ -26,7 +26,7 @@ def tree_worker(arg):
     files, out = st["case"]["files"], st["out"]
     # the lookup directory provides another root namespace ("k") or - allowed by default - one of the SAME name ("r"):
     # either way none of its files belongs to the result (the specification's Globbed(files, "t"))
-    lname = "r" if hash(block) % 2 else "k"
+    lname = "r" if core.pick(block, "lookup-name", 2) else "k"
     fs = {_rel(f, lname): "@sealed\n" for f in files}
     fs.setdefault("troot/r/.keep", "")
     fs.setdefault("lroot/%s/.keep" % lname, "")
@@ -121,7 +121,7 @@ def files_vs_namespace_worker(arg):
         root = str(tr.root)
         lookups = [tr.path("d2/b"), tr.path("d3/a")]
         targets = [tr.path(rr.relpath(d)) for d in case["defs"] if rr.idkey(d) in {rr.idkey(t) for t in case["targets"]}]
-        relative = hash(block) % 2 == 1      # the same relative spellings, from the root of each scratch tree, case after case
+        relative = core.pick(block, "relative", 2) == 1      # the same relative spellings, from the root of each scratch tree, case after case
         old_cwd = os.getcwd()
         try:
             if relative:
